@@ -740,9 +740,14 @@ def check_value_functions(qv, obj, labels, spin, tab, exact, scale, where, ctxs,
             funcs.append(("qubo_value", lambda x: u.qubo_value(x, obj)))
     seq_ok = set(labels) == set(range(n)) and all(isinstance(l, int) for l in labels)
     tol = 0.0 if exact else 1e-9 * max(scale, 1e-300)
+    present = {l for k in keys for l in k}
     for r in range(1 << n):
         x = ref.assignment(labels, r, spin)
         forms = [("dict", x)]
+        if len(present) < n:
+            # an assignment of exactly the variables that occur in the terms (a variable that cancelled out of the
+            # polynomial needs no value)
+            forms.append(("dict_of_present_variables", {l: v for l, v in x.items() if l in present}))
         if seq_ok:
             xs = [x[i] for i in range(n)]
             forms += [("list", xs), ("tuple", tuple(xs))]
